@@ -39,6 +39,10 @@ type guardInfo struct {
 	problems []string
 	cmpPos   token.Pos
 	errCall  string
+	// partial: the guard is sound where it applies, but some recursive calls are made before / beside the check. The
+	// callees all of whose call sites come after the check are guardedCallees; the other edges stay in the graph.
+	partial        bool
+	guardedCallees map[*ssa.Function]bool
 }
 
 func intConst(pk *types.Package, name string) (int64, bool) {
@@ -185,12 +189,34 @@ func analyseGuard(p *core.Prog, fn *ssa.Function, T *types.Named, depth string, 
 	if !retOK {
 		gi.problems = append(gi.problems, "limit branch does not return an error")
 	}
+	shapeOK := len(gi.problems) == 0
+	covered := map[*ssa.Function]bool{}
+	uncovered := map[*ssa.Function]bool{}
 	for _, rc := range recCalls {
-		if !(cb.Dominates(rc.Block()) && rc.Block() != cb) {
+		dom := cb.Dominates(rc.Block()) && rc.Block() != cb
+		if !dom {
 			gi.problems = append(gi.problems, "recursive call at "+p.Pos(rc.Pos())+" is not dominated by the limit check")
+		}
+		for _, c := range p.Callees(rc.(ssa.CallInstruction)) {
+			if canReach[c] {
+				if dom {
+					covered[c] = true
+				} else {
+					uncovered[c] = true
+				}
+			}
 		}
 	}
 	gi.ok = len(gi.problems) == 0
+	if !gi.ok && shapeOK {
+		gi.partial = true
+		gi.guardedCallees = map[*ssa.Function]bool{}
+		for c := range covered {
+			if !uncovered[c] {
+				gi.guardedCallees[c] = true
+			}
+		}
+	}
 	return gi
 }
 
@@ -308,6 +334,7 @@ func c02Parser(c *Ctx, p *core.Prog, rel string, scope []string, typ, limitName 
 		}
 	}
 	ctlShape := false
+	guardedEdges := map[[2]*ssa.Function]bool{}
 	seenC := map[*ssa.Function]bool{}
 	for _, fn := range cands {
 		if seenC[fn] {
@@ -326,6 +353,16 @@ func c02Parser(c *Ctx, p *core.Prog, rel string, scope []string, typ, limitName 
 		if gi.ok {
 			guards[fn] = true
 			r.OK("guard-shape", core.FnName(fn), p.FnPos(fn), "limit branch builds "+gi.errCall)
+		} else if gi.partial {
+			// sound for the calls made after the check; the calls made before or beside it are left in the graph, so
+			// every cycle through them must be cut by another guard (cycle-guarded decides)
+			var names []string
+			for cc := range gi.guardedCallees {
+				guardedEdges[[2]*ssa.Function{fn, cc}] = true
+				names = append(names, cc.Name())
+			}
+			sort.Strings(names)
+			r.OK("guard-shape", core.FnName(fn), p.FnPos(fn), "partial guard: the calls to "+strings.Join(names, ", ")+" come after the limit check; the other recursive calls are not covered by it and are checked as cycles")
 		} else {
 			r.Violate("guard-shape", core.FnName(fn), p.FnPos(fn), strings.Join(gi.problems, "; "))
 		}
@@ -364,7 +401,7 @@ func c02Parser(c *Ctx, p *core.Prog, rel string, scope []string, typ, limitName 
 			}
 		}
 	}
-	cycles := g.Cycles(guards, 40)
+	cycles := g.CyclesCut(guards, guardedEdges, 40)
 	if control {
 		r.Control("guard-shape", ctlShape, "controls/c02 badGuard (check after the recursive call)")
 		hit := false
